@@ -22,7 +22,7 @@ fn any_coord() -> KCoord {
 }
 
 fn any_table() -> ([KCoord; OSH_N], usize, OneShotCoords) {
-    let arr = [any_coord(), any_coord(), any_coord()];
+    let arr: [KCoord; OSH_N] = core::array::from_fn(|_| any_coord());
     let n: usize = kani::any();
     kani::assume(n <= OSH_N);
     let mut d: OneShotCoords = ArrayDeque::new();
@@ -389,8 +389,7 @@ fn any_event() -> Event {
 
 /// a queue of n <= WQ_N symbolic events (and the same events as an array, the abstract view)
 fn any_queue() -> (Queue, [Queued; WQ_N], usize) {
-    let q0 = || Queued { event: any_event(), since: kani::any() };
-    let arr = [q0(), q0(), q0(), q0()];
+    let arr: [Queued; WQ_N] = core::array::from_fn(|_| Queued { event: any_event(), since: kani::any() });
     let n: usize = kani::any();
     kani::assume(n <= WQ_N);
     let mut q: Queue = ArrayDeque::new();
